@@ -128,6 +128,12 @@ const("vt_stream_variant", "versatiles_container/src/container/versatiles/reader
     (r"let mut tile_ranges: Vec<\(TileCoord3, ByteRange\)> = tile_index.{0,700}?tile_ranges\.sort_by_key\(\|e\| e\.1\.offset\);.{0,200}?Chunk::new\(tile_ranges\[0\]\.1\.offset\).{0,900}?chunk\.push\(entry\).{0,1500}?let start = range\.offset - chunk\.range\.offset;\s*let end = start \+ range\.length;", 1),
 ], "bbox stream of a block: 1 = Vec of (coord, range) sorted by offset, greedy chunks, tiles cut out of one chunk read at (offset - chunk offset, length)")
 
+# ---- C03 MBTiles row refinement ----
+const("mbtiles_row_variant", "versatiles_container/src/container/mbtiles/reader.rs", [
+    (r'y0 = self\.simple_query\("MIN\(tile_row\)", &format!\("\{sql_prefix\} tile_row <= \{y0\}"\)\)\?;\s*y1 = self\.simple_query\("MAX\(tile_row\)", &format!\("\{sql_prefix\} tile_row >= \{y1\}"\)\)\?;', 1),
+    (r'y1 = self\.simple_query\("MAX\(tile_row\)", &format!\("\{sql_prefix\} tile_row <= \{y1\}"\)\)\?;', 0),
+], "row refinement: 1 = MIN over rows <= estimate and MAX over rows >= estimate, 0 = MAX refinement with <= (upper bound stays the estimate)")
+
 def main():
     out = ["(* GENERATED by tools/scrape_constants.py from /repo — do not edit *)",
            "From Coq Require Import NArith.", "Local Open Scope N_scope.", ""]
